@@ -6,8 +6,14 @@ estimates / scalar_keys (T2), sorted_together_partial + the witness theorem
 sorted_together_full_is_false + nothing_new_returns_input (T3),
 split_invariance / split_of_sequence + split_any_order_is_false (T4),
 single_row, temporal_key_* (T5).  The split theorem covers consecutive splits
-of vars ++ estimates; the pattern "every call passes all estimates" is not
-covered by a theorem and is checked here by correspondence and the oracle.
+of vars ++ estimates.  Props/C14b.lean adds: T4b split_last_call_has_all_estimates /
+split_full_estimates (every call passes estimates, the last call all of them: the
+final table is the single-call table as a dict; full_estimates_exact_is_false: the
+column ORDER differs), T4c later_calls_keep_columns +
+split_without_feedback_is_false (a custom variable defined in a LATER call than a
+built-in that reads it: witness replayed here as `press_n` then a custom `press`),
+T1b one_row_function / step_noninterference(_any_kwargs), T3b
+columns_permuted_together / input_columns_preserved(_always).
 
 Tie B (correspondence): the real `aurel.over_time` is run on small grids with
 per-row inputs that differ in every row, rows in random order, every choice
@@ -47,7 +53,16 @@ THEOREMS = ["AurelVerif.C14." + t for t in (
     "sorted_together_partial", "sorted_together_full_is_false", "nothing_new_returns_input",
     "split_invariance", "split_of_sequence", "splitHyp_t1", "split_any_order_is_false",
     "single_row", "temporal_key_last_wins", "temporal_key_cases", "no_temporal_key_raises")]
-LEAN_FILES = ["AurelVerif/Props/C14.lean", "AurelVerif/Lemmas/Table.lean", "AurelVerif/Model/Table.lean",
+MODULE_B = "AurelVerif.Props.C14b"
+THEOREMS_B = ["AurelVerif.C14." + t for t in (
+    "split_last_call_has_all_estimates", "split_full_estimates", "splitHypD_t1", "splitHypD_E2",
+    "full_estimates_exact_is_false",
+    "later_calls_keep_columns", "splitHypNoFb_E2", "split_without_feedback_is_false",
+    "one_row_function", "step_noninterference", "step_noninterference_any_kwargs",
+    "columns_permuted_together", "input_columns_preserved", "input_columns_preserved_always")]
+LEAN_FILES = ["AurelVerif/Props/C14.lean", "AurelVerif/Props/C14b.lean", "AurelVerif/Lemmas/Table.lean",
+              "AurelVerif/Lemmas/C14FullRow.lean", "AurelVerif/Lemmas/C14Full.lean", "AurelVerif/Lemmas/C14Full2.lean",
+              "AurelVerif/Lemmas/C14Stale.lean", "AurelVerif/Lemmas/C14Perm.lean", "AurelVerif/Model/Table.lean",
               "Driver/C14.lean"]
 
 TEMPORAL = ["it", "iteration", "t", "time"]
@@ -80,6 +95,20 @@ def _fc(rel):
 
 def _fd(rel):
     return rel["alpha"] * rel.myfac + rel["gammadet"]
+
+
+def _fg(rel):          # reads ANOTHER custom variable (`c1`) when the step's AurelCore holds one
+    # (through its mean: the result is a 3-D scalar whatever the rank of `c1`)
+    return 1.5 * rel["alpha"] + (0.7 * float(np.mean(rel.data["c1"])) if "c1" in rel.data else 0.25)
+
+
+def _fh(rel):          # reads the custom variables `c2` and `myvar` when present (chains c1 -> c2 -> c3)
+    out = 0.3 * rel["gammadet"] + 2.0
+    if "c2" in rel.data:
+        out = out + 0.45 * float(np.mean(rel.data["c2"]))
+    if "myvar" in rel.data:
+        out = out - 0.2 * float(np.mean(rel.data["myvar"]))
+    return out
 
 
 def _fp(rel):          # a custom `press` (EOS-like): the built-in default is zeros
@@ -124,6 +153,7 @@ def _bad2p(a, b):
 
 # tag -> (callable, valid)
 VF = {"fa": (_fa, True), "fb": (_fb, True), "fc": (_fc, True), "fd": (_fd, True),
+      "fg": (_fg, True), "fh": (_fh, True),
       "fp": (_fp, True), "fr0": (_fr0, True), "fe": (_fe, True), "fal": (_fal, True),
       "bad2": (_bad2, False), "badraise": (_badraise, False)}
 EF = {"ta": (_ta, True), "tb": (_tb, True), "badarr": (_badarr, False), "bad2p": (_bad2p, False)}
@@ -530,7 +560,7 @@ def gen_scenario(rng, tier, force=None):
         kwargs["Lambda"] = rng.choice((0.1, 0.3))
     domain = force.get("domain", rng.random() < 0.6)
     bi_pool = [b for b in BUILTINS if not (b in ("betamag", "betadown3") and "betaup3" not in cols)]
-    nv = rng.choice((0, 1, 1, 2, 2, 3, 4))
+    nv = rng.choice((0, 1, 1, 2, 2, 3, 4, 5))
     ne = rng.choice((0, 1, 1, 2, 3))
     vars_all, ests_all = [], []
     cnames = ["c1", "c2", "c3", "myvar"]
@@ -551,7 +581,8 @@ def gen_scenario(rng, tier, force=None):
                 if (domain and nm in used_names) or nm in [i[0] for i in items]:
                     continue
                 used_names.add(nm)
-                tag = rng.choice(["fa", "fb", "fc", "fd", "fa", "fc"] + (["bad2", "badraise"] if rng.random() < 0.3 else []))
+                tag = rng.choice(["fa", "fb", "fc", "fd", "fa", "fc", "fg", "fg", "fh"]
+                                 + (["bad2", "badraise"] if rng.random() < 0.3 else []))
                 items.append([nm, tag])
             if items:
                 vars_all.append({"dict": items})
@@ -583,7 +614,7 @@ def gen_scenario(rng, tier, force=None):
     if domain and "n" in used_e and ("rho_n" in used_names):
         domain = False
     seq = [("v", i) for i in vars_all] + [("e", i) for i in ests_all]
-    ncalls = rng.choice((1, 2, 2, 3))
+    ncalls = rng.choice((1, 2, 2, 3, 3, 4, 5))
     style = "free"
     if domain and rng.random() < 0.3:
         # every call passes the complete estimates list, the variables are cut consecutively
@@ -617,8 +648,9 @@ def shadow_scenario(rng, sc):
     """Custom functions named like built-in keys (`press` from an EOS, `rho0`, `eps`, `alpha`
     when it is not an input), a long list of built-ins that read them, a small
     `clear_cache_every_nbr_calc` passed through over_time's keyword options; the custom
-    entry first / in the middle / last.  One call: in the property domain (oracle = fresh
-    AurelCore with the custom values as frozen inputs, clean-up disabled)."""
+    entry first / in the middle / last.  One call, or several calls with the customs in the first
+    one: in the property domain (oracle = fresh AurelCore with the custom values as frozen inputs,
+    clean-up disabled)."""
     names = rng.sample(["press", "press", "rho0", "eps", "alpha"], rng.choice((1, 1, 2)))
     names = list(dict.fromkeys(names))
     cols = [c for c in sc["cols"] if c not in ("alpha_max", "rho_tg1")]
@@ -646,16 +678,21 @@ def shadow_scenario(rng, sc):
     if rng.random() < 0.75:
         sc.update(domain=True, style="shadow_one_call", calls=[{"vars": list(vars_all), "ests": list(ests_all)}])
     else:
-        # several calls: the customs named like built-ins all in the FIRST call (so that no
-        # built-in column is computed before the custom value exists: otherwise a column fed
-        # back from the earlier call contradicts the custom value — outside `FeedbackOK`, and
-        # outside what the driver's abbreviated identities can express); correspondence only
-        n = rng.choice((2, 3))
+        # several calls, each with the full estimates list: the customs named like built-ins all in the
+        # FIRST call, so that every built-in is requested after the customs it may read (theorem T4b
+        # split_full_estimates, hypothesis FeedbackDep).  `vars_all` = the requests in the order of the
+        # calls: in the property domain (oracle + one-call comparison).  (A custom requested AFTER a
+        # built-in that reads it is the witness of split_without_feedback_is_false.)
+        n = rng.choice((2, 3, 4))
         calls = [{"vars": [], "ests": list(ests_all)} for _ in range(n)]
         for v in vars_all:
             shadow = isinstance(v, dict) and v["dict"][0][0] in SHADOW
             calls[0 if shadow else rng.randrange(n)]["vars"].append(v)
-        sc.update(domain=False, style="shadow_free", calls=calls)
+        if rng.random() < 0.5:      # customs before every built-in (the literal hypothesis of T4b); otherwise
+            # first / middle / last within the first call (same result: a call evaluates its customs first)
+            calls[0]["vars"].sort(key=lambda v: 0 if isinstance(v, dict) and v["dict"][0][0] in SHADOW else 1)
+        sc.update(domain=True, style="shadow_first_call", calls=calls,
+                  vars_all=[v for c in calls for v in c["vars"]])
 
 
 def fixed_shadow_scenarios():
@@ -674,6 +711,53 @@ def fixed_shadow_scenarios():
         finish_scenario(sc)
         out.append(sc)
     return out
+
+
+def fixed_full_estimates_scenarios():
+    """Always run (tie of T4b `split_full_estimates`): EVERY call passes the complete estimates
+    list, 3 / 4 / 5 calls (one of them without variables), rows given in permuted order with
+    DUPLICATE temporal keys (stability), two temporal columns, custom functions that read other
+    custom variables (`fg` reads `c1`, `fh` reads `c2` and `myvar`), a built-in and a custom estimator.
+    In the property domain: oracle = per-step fresh AurelCore + the one-call run of the real code."""
+    out = []
+    v1 = ["Ktrace", {"dict": [["c1", "fa"]]}, "gammadet", {"dict": [["c2", "fg"]]}, {"dict": [["c3", "fh"]]}, "A2"]
+    v2 = [{"dict": [["myvar", "fc"], ["c1", "fg"]]}, "Ktrace", {"dict": [["c2", "fg"]]}, "s_RicciS",
+          {"dict": [["c3", "fh"]]}, "gdet", "kxx"]
+    specs = [
+        (v1, [2, 4], ["max", {"dict": [["tg1", "ta"]]}], [3, 1, 4, 0, 2], {"it": [5, 5, 0, 5, 0]}, ["it"]),
+        (v1, [0, 1, 3], ["mean", "x1y0z1"], [1, 3, 0, 2], {"t": [7, 3, 7, 3], "it": [0, 1, 2, 3]}, ["it", "t"]),
+        (v2, [1, 3, 3, 6], ["min", {"dict": [["tg2", "tb"]]}, "maxabs"], [4, 2, 5, 0, 3, 1],
+         {"iteration": [2, 1, 2, 1, 0, 2]}, ["iteration"]),
+    ]
+    for vars_all, cuts, ests, order, tvals, tcols in specs:
+        cols = ["gammadown3", "Kdown3", "alpha", "rho"]
+        for k, c in enumerate(tcols):
+            cols.insert(2 * k, c)
+        calls = [{"vars": vars_all[a:b], "ests": copy.deepcopy(ests)}
+                 for a, b in zip([0] + cuts, cuts + [len(vars_all)])]
+        sc = {"N": 6, "order": order, "cols": cols, "tvals": tvals, "kwargs": {"myfac": 2.5}, "domain": True,
+              "style": "all_ests_each_call", "vars_all": copy.deepcopy(vars_all), "ests_all": copy.deepcopy(ests),
+              "calls": calls}
+        finish_scenario(sc)
+        out.append(sc)
+    return out
+
+
+def reads_customs(sc):
+    """Does some call of the scenario evaluate a custom function that READS another custom variable
+    which the per-step AurelCore holds at that moment (defined earlier in the call or by an earlier call)?"""
+    have = set()
+    for call in sc["calls"]:
+        for i in call["vars"]:
+            if not isinstance(i, dict):
+                continue
+            for nm, tag in i["dict"]:
+                if not VF[tag][1] or nm in sc["cols"] or nm in have:
+                    continue
+                if (tag == "fg" and "c1" in have) or (tag == "fh" and ({"c2", "myvar"} & have)):
+                    return True
+                have.add(nm)
+    return False
 
 
 def finish_scenario(sc):
@@ -935,15 +1019,20 @@ def witness_scenarios():
     w1 = dict(copy.deepcopy(base), calls=[{"vars": [], "ests": ["max"]}, {"vars": ["Ktrace"], "ests": []}],
               vars_all=["Ktrace"], ests_all=["max"])
     w2 = dict(copy.deepcopy(base), calls=[{"vars": [], "ests": []}], vars_all=[], ests_all=[])
-    for w in (w1, w2):
+    # split_without_feedback_is_false: the built-in `press_n` in the first call, a custom `press` (which the
+    # single call would feed into `press_n`) in the second call
+    w3 = dict(copy.deepcopy(base), cols=["it", "gammadown3", "Kdown3", "alpha", "rho"],
+              calls=[{"vars": ["press_n"], "ests": []}, {"vars": [{"dict": [["press", "fp"]]}], "ests": []}],
+              vars_all=["press_n", {"dict": [["press", "fp"]]}], ests_all=[], style="witness")
+    for w in (w1, w2, w3):
         finish_scenario(w)
-    return w1, w2
+    return w1, w2, w3
 
 
 def check_witnesses(ctx):
     """Replay the witnesses of `split_any_order_is_false` and
     `sorted_together_full_is_false` on the real code."""
-    w1, w2 = witness_scenarios()
+    w1, w2, w3 = witness_scenarios()
     real1, _ = run_real(w1)
     one1, _ = run_real(w1, [{"vars": ["Ktrace"], "ests": ["max"]}])
     if not isinstance(real1, str) and not isinstance(one1, str):
@@ -959,7 +1048,35 @@ def check_witnesses(ctx):
             ctx.violation("over_time with nothing new to compute returns the rows unsorted (it = %s)" % its,
                           {"kind": "input", "scenario": w2, "what_kind": "noop_returns_unsorted"},
                           {"kind": "noop_returns_unsorted"})
-    return [w1, w2]
+    # witness of split_without_feedback_is_false (theorem later_calls_keep_columns says what happens: the
+    # column `press_n` of the first call is never recomputed)
+    real3, _ = run_real(w3)
+    one3, _ = run_real(w3, [{"vars": w3["vars_all"], "ests": []}])
+    first3, _ = run_real(w3, w3["calls"][:1])
+    ok3, d3 = False, "over_time raised: split %s, one call %s" % (real3 if isinstance(real3, str) else "ok",
+                                                                 one3 if isinstance(one3, str) else "ok")
+    if not any(isinstance(x, str) for x in (real3, one3, first3)):
+        kept = np.array_equal(np.asarray(real3["press_n"]), np.asarray(first3["press_n"]))
+        differs = not same(np.asarray(real3["press_n"]), np.asarray(one3["press_n"]))
+        same_press = bool(same(np.asarray(real3["press"]), np.asarray(one3["press"])))
+        ok3 = kept and differs and same_press
+        d3 = ("split keeps the first call's press_n: %s; split press_n != one-call press_n: %s (max |.| %.3g against %.3g); "
+              "press equal: %s" % (kept, differs, float(np.max(np.abs(real3["press_n"]))),
+                                   float(np.max(np.abs(one3["press_n"]))), same_press))
+        if differs:
+            what = ("over_time(data, vars=['press_n']) followed by over_time(result, vars=[{'press': f}]) keeps the "
+                    "'press_n' computed from the default press (zeros); the single call over_time(data, "
+                    "vars=['press_n', {'press': f}]) computes 'press_n' from the custom press: a custom variable "
+                    "named like a built-in key, requested in a later call than a built-in that reads it, does not "
+                    "reach the column computed earlier (split dependence outside the feedback hypothesis)")
+            fp = {"kind": "split_custom_after_reader"}
+            if ctx.match_known(fp) is not None:
+                ctx.violation(what, {"kind": "input", "scenario": w3, "what_kind": "split_custom_after_reader"}, fp)
+            else:       # candidate finding, reported to the lead; not (yet) an entry of known_findings.json
+                ctx.notes.append("CANDIDATE-FINDING (not in known_findings.json): " + what)
+    ctx.obligation("witness of split_without_feedback_is_false replayed on the real code (press_n, then a custom press)",
+                   ok3, d3, kind="correspondence")
+    return [w1, w2, w3]
 
 
 # ----------------------------------------------------------------- run
@@ -999,11 +1116,18 @@ def correspondence(ctx, scs, label):
                         if a != b:
                             d = "column %s: impl %s model %s" % (c, a, b)
                             break
-        for key in ("rows=%d" % len(sc["order"]), "calls=%d" % len(sc["calls"]),
+        extra_keys = []
+        if sc.get("style") == "all_ests_each_call" and len(sc["calls"]) >= 3:
+            extra_keys.append("all_ests_each_call,calls>=3")
+        if reads_customs(sc):
+            extra_keys.append("custom_reads_custom")
+        if any(len(set(v)) < len(v) for v in sc["tvals"].values()) and len(sc["calls"]) >= 2:
+            extra_keys.append("ties,calls>=2")
+        for key in extra_keys + ["rows=%d" % len(sc["order"]), "calls=%d" % len(sc["calls"]),
                     "temporal=" + "+".join(c for c in sc["cols"] if c in sc["tvals"]),
                     "split=" + sc.get("style", "fixed"),
                     "ties" if any(len(set(v)) < len(v) for v in sc["tvals"].values()) else "distinct",
-                    "kwargs=" + "+".join(sorted(sc["kwargs"]))):
+                    "kwargs=" + "+".join(sorted(sc["kwargs"]))]:
             dist[key] = dist.get(key, 0) + 1
         ctx.count("cells_compared", 0 if isinstance(can, str) else sum(len(i) for _, i in can))
         if isinstance(real, str):
@@ -1067,12 +1191,14 @@ def run(ctx):
                         "sortable temporal cells: `<` is a strict weak order (no NaN)"]
     # 2-3. prove + audit
     ctx.prove(MODULE, THEOREMS)
+    ctx.prove(MODULE_B, THEOREMS_B)
     ctx.forbidden_scan(LEAN_FILES)
     if ctx.tier == "thorough":
-        ctx.leanchecker([MODULE])
+        ctx.leanchecker([MODULE, MODULE_B])
     # 4. correspondence
     n_sc = ctx.budget(300, 5000)
-    scs = fixed_shadow_scenarios() + [gen_scenario(ctx.rng, ctx.tier) for _ in range(n_sc)]
+    scs = fixed_shadow_scenarios() + fixed_full_estimates_scenarios() \
+        + [gen_scenario(ctx.rng, ctx.tier) for _ in range(n_sc)]
     results, bad = correspondence(ctx, scs, "random scenarios")
     correspondence(ctx, error_scenarios(), "malformed tables")
     ragged_case(ctx)
@@ -1110,7 +1236,7 @@ def run(ctx):
 def replay(ctx, obj):
     sc = obj["scenario"]
     kind = obj.get("what_kind")
-    if kind in ("split_est_before_vars", "noop_returns_unsorted"):
+    if kind in ("split_est_before_vars", "noop_returns_unsorted", "split_custom_after_reader"):
         check_witnesses(ctx)
         n = len(ctx.violations) + len(ctx.known)
     else:
